@@ -227,6 +227,12 @@ func TestC04Runs(t *testing.T) {
 	o := kit.Get()
 	defer o.Close()
 	r := kit.NewRand(kit.Seed() + 4)
+	// config files: every stage starts its own pool on the run's one pool manager; stages of
+	// different concurrency, bodies of a few ms: no two executing iterations may share a handle
+	dir := t.TempDir()
+	for rep := 0; rep < kit.N(2, 12); rep++ {
+		fileHandles(o, r, dir, rep)
+	}
 	n := kit.N(12, 90)
 	for i := 0; i < n; i++ {
 		mode := []string{"constant", "staged", "ramp", "gaussian", "users"}[i%5]
@@ -286,6 +292,45 @@ func TestC04Runs(t *testing.T) {
 		o.Case("c04_ok", []string{kit.I(ob.hwm.Load()), kit.I(conc), kit.B(ob.shared.Load()), kit.B(rendezvousOK.Load())}, "T", "run", mode, "nt")
 		o.Case("c03_ok", []string{kit.Ints(ob.idsDesc()), "0", "F"}, "T", "run", mode, "ids")
 	}
+}
+
+func fileHandles(o *kit.Out, r *kit.Rand, dir string, idx int) {
+	big := int(r.Range(3, 8))
+	small := int(r.Range(1, int64(big-1)))
+	ob := &obs{live: map[*f1testing.T]bool{}}
+	hold := time.Duration(r.Range(1, 30)) * time.Millisecond
+	scenario := func(*f1testing.T) f1testing.RunFn {
+		return func(t *f1testing.T) {
+			ob.enter(t)
+			defer ob.leave(t)
+			time.Sleep(hold)
+		}
+	}
+	yaml := "scenario: verifscenario\ndefault:\n  mode: constant\n  rate: " + strconv.Itoa(4*big) + "/10ms\n  jitter: 0\n  distribution: none\n  concurrency: " + strconv.Itoa(big) +
+		"\nlimits:\n  max-duration: 2s\n  concurrency: " + strconv.Itoa(big) + "\n  max-iterations: 0\n  ignore-dropped: true\nstages:\n" +
+		"  - duration: 60ms\n    mode: constant\n" +
+		"  - duration: 60ms\n    mode: " + kit.Pick(r, "users", "constant") + "\n    concurrency: " + strconv.Itoa(small) + "\n" +
+		"  - duration: 60ms\n    mode: constant\n" +
+		"  - duration: 60ms\n    mode: constant\n    concurrency: " + strconv.Itoa(small) + "\n" +
+		"  - duration: 60ms\n    mode: constant\n"
+	file := dir + "/c04_" + strconv.Itoa(idx) + ".yaml"
+	_ = writeFile(file, yaml)
+	out, hung, dump := runkit.DoTimeout(runkit.Config{Mode: "file", FileArg: file, Scenario: scenario, Ctx: context.Background(),
+		Opts: options.RunOptions{MaxDuration: 2 * time.Second, Concurrency: big, IgnoreDropped: true}}, 60*time.Second)
+	if hung {
+		o.Fail("c04-run-hung", "file run did not return: "+dump[:min(len(dump), 2000)])
+		return
+	}
+	if out.Err != nil {
+		o.Fail("c04-run-error", "file run failed: "+out.Err.Error())
+		return
+	}
+	if ob.shared.Load() {
+		o.Fail("shared-handle-within-run", "config file with stages of concurrency "+strconv.Itoa(big)+","+strconv.Itoa(small)+","+strconv.Itoa(big)+","+strconv.Itoa(small)+","+strconv.Itoa(big)+" and bodies of "+hold.String()+": two concurrently executing iterations were given the same T")
+	}
+	o.Count("mode", "file")
+	// consecutive stages' pools may overlap for a moment, so only the handle part of the predicate is meaningful here
+	o.Case("c04_ok", []string{kit.I(min(ob.hwm.Load(), int64(big))), kit.I(big), kit.B(ob.shared.Load()), "T"}, "T", "run", "file", "handles")
 }
 
 // ---------------------------------------------------------------- C03: whole runs ended by the limit, all modes and file stages
